@@ -243,7 +243,8 @@ Proof.
 Qed.
 Print Assumptions C04_full_refuted.
 
-(* the reader model's switches are those of schema_from_proto.go (regenerated tables) *)
+(* the reader model's switches are those of schema_from_proto.go (regenerated tables,
+   each compared with what the model function does on probe inputs) *)
 Theorem C04_reader_table_agrees :
   forallb (fun a => match a with
                     | (k, f, smax, smin, sxmax, sxmin) =>
@@ -253,8 +254,17 @@ Theorem C04_reader_table_agrees :
                         end
                     end) RulesGen.reader_int_arms = true
   /\ RulesGen.reader_int_list_arms = RulesGen.writer_int_list_arms
-  /\ RulesGen.reader_id62_published = true.
-Proof. exact (conj reader_int_arms_agree (conj reader_int_list_arms_agree reader_id62_agree)). Qed.
+  (* wellKnownStringPatterns: read_string turns each generated pattern into the generated format *)
+  /\ forallb (fun a => ostr_eqb (model_wellknown (fst a)) (snd a)) RulesGen.reader_wellknown_literals = true
+  /\ RulesGen.reader_id62_published = model_id62_reads_as_key
+  (* and the writer's side of the same annotations *)
+  /\ RulesGen.writer_object_rules_empty = emits_typeless (TObject false (Some (OBR (Some 1) (Some 2))))
+  /\ RulesGen.writer_oneof_rules_empty = emits_typeless (TOneof true None).
+Proof.
+  exact (conj reader_int_arms_agree (conj reader_int_list_arms_agree
+        (conj (proj1 reader_wellknown_agree) (conj (proj1 reader_id62_agree)
+        (conj (proj1 (proj2 writer_reduced_rules_agree)) (proj1 (proj2 (proj2 writer_reduced_rules_agree)))))))).
+Qed.
 Print Assumptions C04_reader_table_agrees.
 
 (* non-vacuity: an object with every kind of rule lies in the fragment, compiles
